@@ -102,6 +102,14 @@ def setTofMash (T new : Int) : Option (Int × Int × Int) :=
 
 /-! ## `SSRB(const ProjDataInfo&, …)`: the output geometry -/
 
+/-- the segments with the listed numbers; `none` if one of them does not exist -/
+def collect (f : Int → Option Seg) : List Int → Option (List Seg)
+  | [] => some []
+  | i :: r =>
+    match f i, collect f r with
+    | some s, some l => some (s :: l)
+    | _, _ => none
+
 /-- one iteration of the loop over `out_segment_num` (SSRB.cxx:95-132): ring-difference range and number of axial
     positions of output segment `os`.  `none`: the source calls `error` ("non-integer") — or reads a segment the
     input does not have (undefined behaviour in the source: there is no check). -/
@@ -113,7 +121,7 @@ def ssrbOutSeg (p : PDI) (kSeg os : Int) : Option Seg := do
   let minRD := sMin.minRD
   let maxRD := sMax.maxRD
   -- min_m / max_m over the input segments (1.E37F / -1.E37F initial values are never the result: the loop is not empty)
-  let grp ← (irange inMinS inMaxS).mapM p.seg?
+  let grp ← collect p.seg? (irange inMinS inMaxS)
   let minM := grp.foldl (fun acc s => min acc (s.m4 0)) (sMin.m4 0)
   let maxM := grp.foldl (fun acc s => max acc (s.m4 (s.numAx - 1))) (sMin.m4 (sMin.numAx - 1))
   let outInc : Int := if maxRD != minRD then 2 else 1
@@ -134,7 +142,7 @@ def ssrbInfo (p : PDI) (kSeg kView trim maxSegArg kTof : Int) : Option PDI := do
   let (minTang, maxTang) := setNumTang (p.numTang - trim)
   let outMax := ((if maxIn == -1 then p.maxSeg else maxIn) - kSeg.tdiv 2).tdiv kSeg
   if outMax < 0 then none
-  let segs ← (irange (-outMax) outMax).mapM (ssrbOutSeg p kSeg)
+  let segs ← collect (ssrbOutSeg p kSeg) (irange (-outMax) outMax)
   let (tofMash, minTof, maxTof) ←
     if kTof != 1 then
       if kTof < 1 then none else setTofMash p.T (p.tofMash * kTof)
@@ -372,6 +380,28 @@ def overlapIter (out oc inv ic : Array Rat) (onlyAdd assign : Bool) : Array Rat 
         | (o, some j) =>
           if !onlyAdd && assign then (List.range (o.size - (j + 1))).foldl (fun o k => o.set! (j + 1 + k) 0) o else o
 
+
+/-! ## specification of overlap interpolation (what the two implementations above are meant to compute) -/
+
+/-- length of `[a, b] ∩ [c, d]` -/
+def ovLen (a b c d : Rat) : Rat := max 0 (min b d - max a c)
+
+/-- value of the output box `[l, r]`: `Σ_j in_j · |[ic j, ic (j+1)] ∩ [l, r]|` over the `n` input boxes -/
+def specBox (n : Nat) (inv ic : Nat → Rat) (l r : Rat) : Rat :=
+  ((List.range n).map fun j => inv j * ovLen (ic j) (ic (j + 1)) l r).sum
+
+/-- the specification for explicit box boundaries (iterator version; the implementation additionally drops overlaps `≤ epsilon`) -/
+def overlapSpecIter (oc inv ic : Array Rat) : List Rat :=
+  (List.range (oc.size - 1)).map fun i => specBox inv.size (fun j => inv[j]!) (fun j => ic[j]!) oc[i]! oc[i + 1]!
+
+/-- the specification for `overlap_interpolate(out, in, zoom, offset)`: input box `j` is `[j-½, j+½]`, output box `i` is
+    `[(i-½)/zoom + offset, (i+½)/zoom + offset]` (in input index units) -/
+def overlapSpecVec (outLo : Int) (outN : Nat) (inp : Vec) (zoom offset : Rat) : List Rat :=
+  (List.range outN).map fun (k : Nat) =>
+    let i : Int := outLo + (k : Int)
+    specBox inp.vals.length (fun j => inp.vals.getD j 0) (fun (j : Nat) => ((inp.lo + (j : Int) : Int) : Rat) - 1 / 2)
+      (((i : Rat) - 1 / 2) / zoom + offset) (((i : Rat) + 1 / 2) / zoom + offset)
+
 /-! ## images and `zoom_image` (zoom.cxx) -/
 
 structure Grid where
@@ -504,5 +534,99 @@ def cogMm (im : Img) : Option (Rat × Rat × Rat) :=
   else
     let (mz, my, mx) := volMoments im.g im.d
     some (im.g.vz * (mz / s) + im.g.oz, im.g.vy * (my / s) + im.g.oy, im.g.vx * (mx / s) + im.g.ox)
+
+/-! ## `inverse_SSRB` (inverse_SSRB.cxx:33-131) -/
+
+/-- the input (direct, segment 0) sinograms and weights that make up the output sinogram with axial coordinate `outM`;
+    `ms` = the `m` of the input axial positions in order (any common unit).  `none`: no position selected (`error`),
+    or the source reads a sinogram outside the input range (single input position not matching). -/
+def inverseSsrbWeights (ms : List Rat) (outM : Rat) (tol : Rat) : Option (List (Nat × Rat)) :=
+  let n := ms.length
+  let dist (k : Nat) : Rat := absQ (outM - ms.getD k 0)
+  let rec go : Nat → Nat → Option (List (Nat × Rat))
+    | 0, _ => none
+    | fuel + 1, a =>
+      if a ≥ n then none
+      else
+        let cur := dist a
+        let prevOk := a == 0 || cur ≤ dist (a - 1)          -- first slice: distance_to_previous = FLT_MAX
+        let nextOk := a + 1 == n || cur ≤ dist (a + 1)      -- last slice: distance_to_next = FLT_MAX
+        if prevOk && nextOk then
+          if cur ≤ tol then some [(a, 1)]
+          else if a != 0 && (a + 1 == n || dist (a - 1) < dist (a + 1)) then
+            let p := dist (a - 1)
+            some [(a - 1, cur / (p + cur)), (a, p / (p + cur))]
+          else if a + 1 == n then none     -- reads sinogram `a+1` which does not exist
+          else
+            let nx := dist (a + 1)
+            some [(a + 1, cur / (nx + cur)), (a, nx / (nx + cur))]
+        else go fuel (a + 1)
+  go n 0
+
+/-! ## `extend_segment` (extend_projdata.cxx:36-150) -/
+
+/-- a 3-D array `[axial][view][tang]` with its first indices -/
+structure Arr3 where
+  a0 : Int
+  v0 : Int
+  t0 : Int
+  d : Array (Array (Array Rat))
+  deriving Repr, Inhabited
+
+def Arr3.get (x : Arr3) (a v t : Int) : Rat := ((x.d.getD (a - x.a0).toNat #[]).getD (v - x.v0).toNat #[]).getD (t - x.t0).toNat 0
+def Arr3.set (x : Arr3) (a v t : Int) (q : Rat) : Arr3 :=
+  let i := (a - x.a0).toNat
+  let j := (v - x.v0).toNat
+  let k := (t - x.t0).toNat
+  { x with d := x.d.modify i (fun pl => pl.modify j (fun row => row.set! k q)) }
+
+/-- view handling: 0 = wrap around (360°), 1 = wrap with tangential flip (180°, segment 0), 2 = nearest neighbour.
+    `numViews` views covering `(numViews-1)·π/numViews`; the source compares with 2π and π within 5 samplings. -/
+def extendMode (numViews segNum : Int) : Nat :=
+  if numViews < 2 then 2          -- 0/0 sampling: every comparison is false
+  else if numViews + 1 < 5 then 0 -- |range - 2π| < 5·sampling  ⇔  (V+1)·π/V < 5·π/V
+  else if segNum == 0 then 1
+  else 2
+
+def extendSegment (seg : Arr3) (na nv nt : Nat) (ve ae te : Int) (mode : Nat) : Arr3 :=
+  let min1 := seg.a0 - ae
+  let min2 := seg.v0 - ve
+  let min3 := seg.t0 - te
+  let max1 := seg.a0 + na - 1 + ae
+  let max2 := seg.v0 + nv - 1 + ve
+  let max3 := seg.t0 + nt - 1 + te
+  let axs := irange min1 max1
+  let vs := irange min2 max2
+  let ts := irange min3 max3
+  -- out.grow(...): old values kept, new entries 0
+  let d0 := (axs.map fun a => (vs.map fun v => (ts.map fun t =>
+      if seg.a0 ≤ a ∧ a < seg.a0 + na ∧ seg.v0 ≤ v ∧ v < seg.v0 + nv ∧ seg.t0 ≤ t ∧ t < seg.t0 + nt then seg.get a v t else 0).toArray).toArray).toArray
+  let out : Arr3 := { a0 := min1, v0 := min2, t0 := min3, d := d0 }
+  let copyVT (o : Arr3) (dst src : Int) : Arr3 := vs.foldl (fun o v => ts.foldl (fun o t => o.set dst v t (o.get src v t)) o) o
+  let out := (irange 0 (ae - 1)).foldl (fun o e => copyVT (copyVT o (min1 + e) (min1 + ae)) (max1 - e) (max1 - ae)) out
+  let copyT (o : Arr3) (a dst src : Int) (flip : Bool) (tsel : List Int) : Arr3 :=
+    tsel.foldl (fun o t => o.set a dst t (o.get a src (if flip then -t else t))) o
+  let out := (irange 0 (ve - 1)).foldl (fun o e => axs.foldl (fun o a =>
+      match mode with
+      | 2 =>
+        let o := copyT o a (min2 + e) (min2 + ve) false ts
+        copyT o a (max2 - e) (max2 - ve) false ts
+      | 1 =>
+        let sym := min (if min3 < 0 then -min3 else min3) max3
+        let o := (irange (-sym) sym).foldl (fun o t =>
+          let o := o.set a (min2 + e) t (o.get a (max2 - 2 * ve + e + 1) (-t))
+          o.set a (max2 - ve + 1 + e) t (o.get a (min2 + ve + e) (-t))) o
+        let o := (irange min3 (-sym - 1)).foldl (fun o t =>
+          let o := o.set a (min2 + e) t (o.get a (max2 - 2 * ve + e + 1) sym)
+          o.set a (max2 - ve + 1 + e) t (o.get a (min2 + ve + e) sym)) o
+        (irange (sym + 1) max3).reverse.foldl (fun o t =>
+          let o := o.set a (min2 + e) t (o.get a (max2 - 2 * ve + e + 1) (-sym))
+          o.set a (max2 - ve + 1 + e) t (o.get a (min2 + ve + e) (-sym))) o
+      | _ =>
+        let o := copyT o a (min2 + e) (max2 - 2 * ve + e + 1) false ts
+        copyT o a (max2 - ve + 1 + e) (min2 + ve + e) false ts) o) out
+  (irange 0 (te - 1)).foldl (fun o e => axs.foldl (fun o a => vs.foldl (fun o v =>
+      let o := o.set a v (min3 + e) (o.get a v (min3 + te))
+      o.set a v (max3 - e) (o.get a v (max3 - te))) o) o) out
 
 end StirVerif.C15
